@@ -17,38 +17,44 @@ Notation m_len := (m_len T).
 Notation wf := (wf T).
 Notation has := (has T).
 
-Theorem AddAll_spec : forall s t ord, wf s -> wf t ->
-  match AddAll T eqb s t ord with
-  | Ok r => exists l, r = Some l /\ NoDup l /\ forall y, In y l <-> has s y \/ has t y
+(* AddAll: the receiver's address (the fresh one for a nil receiver, never the argument's), the union *)
+Theorem AddAll_spec : forall s t fresh ord, wf s -> wf t ->
+  match AddAll T eqb s t fresh ord with
+  | Ok r => exists l, r = Some (addr_or T s fresh, l) /\ NoDup l /\ forall y, In y l <-> has s y \/ has t y
   | BadOrder => s <> None /\ valid_order T eqb ord t = false
   | _ => False
   end.
 Proof.
-  intros s t ord Hs Ht. unfold AddAll, addall_nil, addall_ncalls_clone, called, m_range. cbn [Z.eqb Pos.eqb].
-  destruct s as [l0|]; cbn [m_ptr nil_ptr Z.eqb].
+  intros s t fresh ord Hs Ht. unfold AddAll. rewrite guarded_ok by reflexivity. unfold addall_nil, m_range.
+  destruct s as [[p l0]|]; cbn [m_ptr nil_ptr Z.eqb addr_or].
   - destruct (valid_order T eqb ord t) eqn:V; [|split; [discriminate | reflexivity]].
     destruct (valid_order_sound T eqb eqb_spec _ _ Ht V) as [_ [M _]].
-    destruct (add_loop_spec T eqb eqb_spec ord l0) as [l [E [M1 N1]]]. rewrite E.
+    destruct (add_loop_spec T eqb eqb_spec ord p l0) as [l [E [M1 N1]]]. rewrite E. cbn [bind]. rewrite ret2_fst by reflexivity.
     exists l. split; [reflexivity|]. split; [apply N1; exact Hs|].
     intro y. rewrite M1, M. unfold MapsetProofs.has. cbn [MapsetModel.m_keys]. tauto.
-  - destruct (Clone_spec T t) as [l [E1 E2]]. rewrite E1. exists l. split; [reflexivity|]. subst l.
+  - rewrite ret2_fst by reflexivity. rewrite Clone_spec. cbn [bind]. rewrite ret2_fst by reflexivity.
+    exists (m_keys t). split; [reflexivity|].
     split; [exact Ht|]. intro y. unfold MapsetProofs.has. cbn [MapsetModel.m_keys In]. tauto.
 Qed.
+
+Lemma m_delete_ptr : forall s x, m_ptr T (m_delete T eqb s x) = m_ptr T s.
+Proof. intros s x. destruct s as [[p l]|]; reflexivity. Qed.
 
 Lemma remove_loop_spec : forall items s,
   (forall y, has (remove_loop T eqb s items) y <-> has s y /\ ~ In y items) /\
   (wf s -> wf (remove_loop T eqb s items)) /\
-  (remove_loop T eqb s items = None <-> s = None).
+  (remove_loop T eqb s items = None <-> s = None) /\
+  m_ptr T (remove_loop T eqb s items) = m_ptr T s.
 Proof.
   induction items as [|x r IH]; intro s; cbn [remove_loop].
-  - split; [|split]; [intro y; cbn [In]; tauto | auto | tauto].
+  - split; [|split; [|split]]; [intro y; cbn [In]; tauto | auto | tauto | reflexivity].
   - unfold remove_break, remove_ncalls_delete, called. cbn [Z.eqb Pos.eqb].
     destruct (Z.eqb (m_len s) 0) eqn:E.
-    + apply (m_len_zero T) in E. split; [|split]; [|auto|tauto].
+    + apply (m_len_zero T) in E. split; [|split; [|split]]; [|auto|tauto|reflexivity].
       intro y. unfold MapsetProofs.has. rewrite E. cbn [In]. tauto.
-    + destruct (IH (m_delete T eqb s x)) as [M [W N]].
+    + destruct (IH (m_delete T eqb s x)) as [M [W [N P]]].
       destruct (m_delete_spec T eqb eqb_spec s x) as [M1 [W1 N1]].
-      split; [|split].
+      split; [|split; [|split]]; [| | |rewrite P; apply m_delete_ptr].
       * intro y. rewrite M, M1. cbn [In]. split.
         -- intros [[H1 H2] H3]. split; [exact H1|]. intros [H|H]; [subst; apply H2; reflexivity | contradiction].
         -- intros [H1 H2]. split; [split; [exact H1|]|]; intro H; apply H2; [left; subst; reflexivity | right; exact H].
@@ -56,31 +62,62 @@ Proof.
       * rewrite N. exact N1.
 Qed.
 
-Theorem Remove_spec : forall s items,
-  (forall y, has (Remove T eqb s items) y <-> has s y /\ ~ In y items) /\
-  (wf s -> wf (Remove T eqb s items)) /\ (Remove T eqb s items = None <-> s = None).
-Proof. intros. apply remove_loop_spec. Qed.
-
-Lemma removeall_loop_eq : forall items s, removeall_loop T eqb s items = remove_loop T eqb s items.
+(* Remove: returns its receiver (same address; nil stays nil) without the items *)
+Theorem Remove_spec : forall s items, exists r, Remove T eqb s items = Ok r /\
+  (forall y, has r y <-> has s y /\ ~ In y items) /\
+  (wf s -> wf r) /\ (r = None <-> s = None) /\ m_ptr T r = m_ptr T s.
 Proof.
-  induction items as [|x r IH]; intro s; cbn [removeall_loop remove_loop]; [reflexivity|].
-  change (removeall_break (m_len s)) with (remove_break (m_len s)).
-  change removeall_ncalls_delete with remove_ncalls_delete.
-  destruct (remove_break (m_len s)); [reflexivity | apply IH].
+  intros. unfold Remove. rewrite guarded_ok by reflexivity. rewrite ret1_ok by reflexivity.
+  eexists. split; [reflexivity|]. apply remove_loop_spec.
 Qed.
 
-Theorem RemoveAll_spec : forall s t ord, wf t ->
+(* the loop of RemoveAll, whether or not the two operands are one map: an item that is no
+   longer in s is skipped (alias) or deleted without effect (no alias) — the same thing *)
+Lemma m_delete_absent : forall s x, wf s -> ~ has s x -> m_delete T eqb s x = s.
+Proof.
+  intros s x W H. destruct s as [[p l]|]; [|reflexivity]. cbn [m_delete]. f_equal. f_equal.
+  unfold MapsetProofs.has in H. cbn [MapsetModel.m_keys] in H. clear W.
+  induction l as [|a r IH]; [reflexivity|]. cbn [filter].
+  destruct (eqb x a) eqn:E; cbn [negb].
+  - apply eqb_spec in E. subst. exfalso. apply H. left. reflexivity.
+  - f_equal. apply IH. intro K. apply H. right. exact K.
+Qed.
+
+Lemma removeall_loop_eq : forall alias items s, wf s -> removeall_loop T eqb alias s items = remove_loop T eqb s items.
+Proof.
+  intros alias. induction items as [|x r IH]; intros s W; cbn [removeall_loop remove_loop]; [reflexivity|].
+  change (removeall_break (m_len s)) with (remove_break (m_len s)).
+  change removeall_ncalls_delete with remove_ncalls_delete.
+  destruct (alias && negb (m_get T eqb s x)) eqn:A.
+  - apply andb_true_iff in A. destruct A as [_ A]. apply negb_true_iff in A.
+    assert (Hx : ~ has s x) by (intro K; apply (m_get_has T eqb eqb_spec) in K; congruence).
+    destruct (remove_break (m_len s)) eqn:B.
+    + (* the map is empty: the rest of the loop deletes nothing *)
+      clear IH. unfold remove_break in B. apply (m_len_zero T) in B.
+      assert (G : forall items' , removeall_loop T eqb alias s items' = s).
+      { induction items' as [|y r' IH']; cbn [removeall_loop]; [reflexivity|].
+        destruct (alias && negb (m_get T eqb s y)); [exact IH'|].
+        unfold removeall_break. replace (Z.eqb (m_len s) 0) with true; [reflexivity|]. symmetry. apply (m_len_zero T). exact B. }
+      apply G.
+    + unfold called. cbn [Z.eqb Pos.eqb]. rewrite (m_delete_absent s x W Hx). apply IH. exact W.
+  - destruct (remove_break (m_len s)); [reflexivity|]. apply IH.
+    unfold called. cbn [Z.eqb Pos.eqb]. apply (m_delete_spec T eqb eqb_spec). exact W.
+Qed.
+
+(* RemoveAll: returns its receiver (same address) without the members of t — also when t IS s *)
+Theorem RemoveAll_spec : forall s t ord, wf s -> wf t ->
   match RemoveAll T eqb s t ord with
-  | Ok r => (forall y, has r y <-> has s y /\ ~ has t y) /\ (wf s -> wf r) /\ (r = None <-> s = None)
+  | Ok r => (forall y, has r y <-> has s y /\ ~ has t y) /\ wf r /\ (r = None <-> s = None) /\ m_ptr T r = m_ptr T s
   | BadOrder => valid_order T eqb ord t = false
   | _ => False
   end.
 Proof.
-  intros s t ord Ht. unfold RemoveAll, m_range.
+  intros s t ord Hs Ht. unfold RemoveAll. rewrite guarded_ok by reflexivity. unfold m_range.
   destruct (valid_order T eqb ord t) eqn:V; [|reflexivity].
   destruct (valid_order_sound T eqb eqb_spec _ _ Ht V) as [_ [M _]].
-  rewrite removeall_loop_eq. destruct (remove_loop_spec ord s) as [M1 [W1 N1]].
-  split; [|split; assumption]. intro y. rewrite M1, M. tauto.
+  rewrite ret2_fst by reflexivity.
+  rewrite removeall_loop_eq by exact Hs. destruct (remove_loop_spec ord s) as [M1 [W1 [N1 P1]]].
+  split; [|split; [apply W1; exact Hs | split; assumption]]. intro y. rewrite M1, M. tauto.
 Qed.
 
 Lemma filter_remove_length : forall (l : list T) x, NoDup l -> In x l ->
@@ -108,23 +145,25 @@ Theorem Pop_spec : forall s ord, wf s ->
   match Pop T eqb zero s ord with
   | Ok (s', x) =>
       ((m_keys s = [] /\ s' = s /\ x = zero /\ ord = []) \/
-       (has s x /\ (forall y, has s' y <-> has s y /\ y <> x) /\ Len T s' = Len T s - 1 /\ exists r, ord = x :: r))
-      /\ wf s' /\ (s' = None <-> s = None)
+       (has s x /\ (forall y, has s' y <-> has s y /\ y <> x) /\ m_len s' = m_len s - 1 /\ exists r, ord = x :: r))
+      /\ wf s' /\ (s' = None <-> s = None) /\ m_ptr T s' = m_ptr T s
   | BadOrder => valid_order T eqb ord s = false
   | _ => False
   end.
 Proof.
-  intros s ord Hs. unfold Pop, m_range, pop_ncalls_delete, called. cbn [Z.eqb Pos.eqb].
+  intros s ord Hs. unfold Pop. rewrite guarded_ok by reflexivity. unfold m_range, pop_ncalls_delete, called. cbn [Z.eqb Pos.eqb].
   destruct (valid_order T eqb ord s) eqn:V; [|reflexivity].
   destruct (valid_order_sound T eqb eqb_spec _ _ Hs V) as [_ [M L]].
   destruct ord as [|x r].
-  - split; [|split; [exact Hs | tauto]]. left. cbn [length] in L.
+  - rewrite ret2_snd by reflexivity. cbn [bind].
+    split; [|split; [exact Hs | split; [tauto | reflexivity]]]. left. cbn [length] in L.
     split; [|split; [|split]; reflexivity]. destruct (m_keys s); [reflexivity | discriminate].
-  - destruct (m_delete_spec T eqb eqb_spec s x) as [M1 [W1 N1]].
-    split; [|split; [apply W1; exact Hs | exact N1]]. right.
+  - rewrite ret2_fst by reflexivity. cbn [bind].
+    destruct (m_delete_spec T eqb eqb_spec s x) as [M1 [W1 N1]].
+    split; [|split; [apply W1; exact Hs | split; [exact N1 | apply m_delete_ptr]]]. right.
     assert (Hx : has s x) by (apply M; left; reflexivity).
     split; [exact Hx|]. split; [exact M1|]. split; [|exists r; reflexivity].
-    unfold Len, len_ret, MapsetModel.m_len. destruct s as [l|]; [|destruct Hx].
+    unfold MapsetModel.m_len. destruct s as [[p l]|]; [|destruct Hx].
     cbn [m_delete MapsetModel.m_keys]. unfold MapsetProofs.has, MapsetProofs.wf in *. cbn [MapsetModel.m_keys] in *.
     pose proof (filter_remove_length l x Hs Hx). lia.
 Qed.
@@ -151,10 +190,12 @@ Theorem Append_spec : forall s vs ord, wf s ->
   | _ => False
   end.
 Proof.
-  intros s vs ord Hs. unfold Append, append_empty, m_range.
+  intros s vs ord Hs. unfold Append. rewrite guarded_ok by reflexivity. unfold append_empty, m_range.
   destruct (Z.eqb (m_len s) 0) eqn:E.
-  - apply (m_len_zero T) in E. exists []. rewrite app_nil_r, E. split; [reflexivity|]. split; [constructor | reflexivity].
+  - rewrite ret2_snd by reflexivity.
+    apply (m_len_zero T) in E. exists []. rewrite app_nil_r, E. split; [reflexivity|]. split; [constructor | reflexivity].
   - destruct (valid_order T eqb ord s) eqn:V; [|reflexivity].
+    rewrite ret2_snd by reflexivity.
     exists ord. destruct (append_loop_spec ord vs) as [E1 _]. split; [exact E1|].
     split; [apply (valid_order_perm T eqb eqb_spec); assumption|].
     intro H. apply (m_len_zero T) in H. congruence.
@@ -168,10 +209,13 @@ Theorem Slice_spec : forall s ord, wf s ->
   | _ => False
   end.
 Proof.
-  intros s ord Hs. unfold Slice, slice_empty, slice_buf_len, Append, append_empty, m_range.
+  intros s ord Hs. unfold Slice. rewrite guarded_ok by reflexivity. unfold slice_empty.
   destruct (Z.eqb (m_len s) 0) eqn:E.
-  - apply (m_len_zero T) in E. rewrite E. cbn [sl_elems]. split; [constructor|]. split; [constructor | tauto].
-  - destruct (valid_order T eqb ord s) eqn:V; [|reflexivity].
+  - rewrite ret1_ok by reflexivity.
+    apply (m_len_zero T) in E. rewrite E. cbn [sl_elems]. split; [constructor|]. split; [constructor | tauto].
+  - rewrite ret1_ok by reflexivity. unfold Append. rewrite guarded_ok by reflexivity. unfold append_empty, m_range, slice_buf_len. rewrite E.
+    destruct (valid_order T eqb ord s) eqn:V; [|reflexivity].
+    rewrite ret2_snd by reflexivity.
     cbn [Z.to_nat repeat].
     destruct (append_loop_spec ord (Some [])) as [E1 [N1 _]]. rewrite E1. cbn [sl_elems app].
     pose proof (valid_order_perm T eqb eqb_spec _ _ Hs V) as P.
@@ -195,22 +239,22 @@ Lemma intersect_inner_spec : forall ss v, intersect_inner T eqb ss v = true <-> 
 Proof.
   induction ss as [|s r IH]; intro v; cbn [intersect_inner].
   - split; [intros _ s [] | reflexivity].
-  - unfold intersect_miss. destruct (Has T eqb s v) eqn:E; cbn [negb].
+  - unfold intersect_miss. destruct (Has_raw T eqb s v) eqn:E; cbn [negb].
     + rewrite IH. apply (Has_has T eqb eqb_spec) in E. split.
       * intros H s' [Hs|Hs]; [subst; exact E | auto].
       * intros H s' Hs. apply H. right. exact Hs.
     + apply (Has_false T eqb eqb_spec) in E. split; [discriminate|]. intro H. exfalso. apply E. apply H. left. reflexivity.
 Qed.
 
-Lemma intersect_loop_spec : forall ss items lo, NoDup lo -> exists l,
-  intersect_loop T eqb ss items (Some lo) = Ok (Some l) /\ NoDup l /\
+Lemma intersect_loop_spec : forall ss fresh p items lo, NoDup lo -> exists l,
+  intersect_loop T eqb ss items (Some (p, lo)) fresh = Ok (Some (p, l)) /\ NoDup l /\
   forall y, In y l <-> In y lo \/ (In y items /\ forall s, In s ss -> has s y).
 Proof.
-  intros ss. induction items as [|v r IH]; intros lo Hlo; cbn [intersect_loop].
+  intros ss fresh p. induction items as [|v r IH]; intros lo Hlo; cbn [intersect_loop].
   - exists lo. split; [reflexivity|]. split; [exact Hlo|]. intro y. cbn [In]. tauto.
   - destruct (intersect_inner T eqb ss v) eqn:E.
     + unfold intersect_ncalls_add, called. cbn [Z.eqb Pos.eqb].
-      destruct (Add_spec T eqb eqb_spec (Some lo) [v] Hlo) as [l1 [E1 [N1 M1]]]. rewrite E1. cbn [bind].
+      destruct (Add_spec T eqb eqb_spec (Some (p, lo)) fresh [v] Hlo) as [l1 [E1 [N1 M1]]]. rewrite E1. cbn [bind addr_or].
       destruct (IH l1 N1) as [l [E2 [N2 M2]]]. exists l. split; [exact E2|]. split; [exact N2|].
       pose proof (proj1 (intersect_inner_spec ss v) E) as E'.
       intro y. rewrite M2, M1. unfold MapsetProofs.has. cbn [MapsetModel.m_keys In]. split.
@@ -225,16 +269,17 @@ Qed.
 
 (* Intersect: non-nil, and exactly the elements common to all operands (none for no operands),
    for every number of operands, nil/empty ones included, and every order *)
-Theorem Intersect_spec : forall ss ord, Forall wf ss ->
-  match Intersect T eqb ss ord with
-  | Ok r => exists l, r = Some l /\ NoDup l /\ forall y, In y l <-> (ss <> [] /\ forall s, In s ss -> has s y)
+Theorem Intersect_spec : forall ss fresh ord, Forall wf ss ->
+  match Intersect T eqb ss fresh ord with
+  | Ok r => exists l, r = Some (fresh, l) /\ NoDup l /\ forall y, In y l <-> (ss <> [] /\ forall s, In s ss -> has s y)
   | BadOrder => exists min, intersect_operand T ss = Ok min /\ valid_order T eqb ord min = false
   | _ => False
   end.
 Proof.
-  intros ss ord Hwf. unfold Intersect, intersect_noargs.
+  intros ss fresh ord Hwf. unfold Intersect. rewrite guarded_ok by reflexivity. unfold intersect_noargs.
   destruct ss as [|s0 rest].
-  - cbn. exists []. split; [reflexivity|]. split; [constructor|]. intro y. cbn [In]. split; [tauto | intros [H _]; congruence].
+  - cbn [length Z.of_nat Z.eqb]. rewrite ret1_ok by reflexivity.
+    exists []. split; [reflexivity|]. split; [constructor|]. intro y. cbn [In]. split; [tauto | intros [H _]; congruence].
   - assert (E0 : Z.eqb (Z.of_nat (length (s0 :: rest))) 0 = false) by (apply Z.eqb_neq; cbn [length]; lia).
     rewrite E0. unfold intersect_operand, intersect_first_idx, intersect_rest_lo.
     change (Z.to_nat 0) with 0%nat. change (Z.to_nat 1) with 1%nat. cbn [nth_error skipn].
@@ -246,41 +291,52 @@ Proof.
     assert (Hmin : wf min) by (rewrite Forall_forall in Hwf; apply Hwf; exact Hin).
     destruct (valid_order T eqb ord min) eqn:V; [|exists min; split; reflexivity || exact V].
     destruct (valid_order_sound T eqb eqb_spec _ _ Hmin V) as [_ [M _]].
-    unfold m_make. destruct (intersect_loop_spec (s0 :: rest) ord [] (NoDup_nil T)) as [l [E [N ML]]].
-    rewrite E. exists l. split; [reflexivity|]. split; [exact N|].
+    unfold m_make. destruct (intersect_loop_spec (s0 :: rest) (Pos.succ fresh) fresh ord [] (NoDup_nil T)) as [l [E [N ML]]].
+    rewrite E. cbn [bind]. rewrite ret2_fst by reflexivity. exists l. split; [reflexivity|]. split; [exact N|].
     intro y. rewrite ML. cbn [In]. split.
     + intros [[]|[_ H]]. split; [discriminate | exact H].
     + intros [_ H]. right. split; [|exact H]. apply M. apply H. exact Hin.
 Qed.
 
 (* ---- Range / Keys / Values *)
-Lemma collect_loop_spec : forall items lo, NoDup lo -> exists l,
-  collect_loop T eqb 1 (Some lo) items = Ok (Some l) /\ NoDup l /\ forall y, In y l <-> In y lo \/ In y items.
+Lemma collect_loop_spec : forall fresh p items lo, NoDup lo -> exists l,
+  collect_loop T eqb 1 (Some (p, lo)) fresh items = Ok (Some (p, l)) /\ NoDup l /\ forall y, In y l <-> In y lo \/ In y items.
 Proof.
-  induction items as [|v r IH]; intros lo Hlo; cbn [collect_loop].
+  intros fresh p. induction items as [|v r IH]; intros lo Hlo; cbn [collect_loop].
   - exists lo. split; [reflexivity|]. split; [exact Hlo|]. intro y. cbn [In]. tauto.
   - unfold called. cbn [Z.eqb Pos.eqb].
-    destruct (Add_spec T eqb eqb_spec (Some lo) [v] Hlo) as [l1 [E1 [N1 M1]]]. rewrite E1. cbn [bind].
+    destruct (Add_spec T eqb eqb_spec (Some (p, lo)) fresh [v] Hlo) as [l1 [E1 [N1 M1]]]. rewrite E1. cbn [bind addr_or].
     destruct (IH l1 N1) as [l [E2 [N2 M2]]]. exists l. split; [exact E2|]. split; [exact N2|].
     intro y. rewrite M2, M1. unfold MapsetProofs.has. cbn [MapsetModel.m_keys In]. tauto.
 Qed.
 
-Theorem Range_spec : forall items, exists l, Range T eqb items = Ok (Some l) /\ NoDup l /\ forall y, In y l <-> In y items.
+(* Range / Keys / Values: a map at the fresh address holding exactly the values produced *)
+Theorem Range_spec : forall items fresh, exists l, Range T eqb (Some items) fresh = Ok (Some (fresh, l)) /\ NoDup l /\ forall y, In y l <-> In y items.
 Proof.
-  intro items. unfold Range, range_ncalls_add, m_make. destruct (collect_loop_spec items [] (NoDup_nil T)) as [l [E [N M]]].
-  exists l. split; [exact E|]. split; [exact N|]. intro y. rewrite M. cbn [In]. tauto.
+  intros items fresh. unfold Range. rewrite guarded_ok by reflexivity.
+  change (called range_ncalls_make (m_make T fresh) None) with (Some (fresh, @nil T)). change range_ncalls_add with 1.
+  destruct (collect_loop_spec (Pos.succ fresh) fresh items [] (NoDup_nil T)) as [l [E [N M]]]. rewrite E. cbn [bind]. rewrite ret1_ok by reflexivity.
+  exists l. split; [reflexivity|]. split; [exact N|]. intro y. rewrite M. cbn [In]. tauto.
 Qed.
 
-Theorem Keys_spec : forall keys, exists l, Keys T eqb keys = Ok (Some l) /\ NoDup l /\ forall y, In y l <-> In y keys.
+(* ranging over the nil iterator function panics (the only panic of the package) *)
+Theorem Range_nil : forall fresh, Range T eqb None fresh = PanicNilFunc.
+Proof. intro fresh. unfold Range. rewrite guarded_ok by reflexivity. reflexivity. Qed.
+
+Theorem Keys_spec : forall keys fresh, exists l, Keys T eqb keys fresh = Ok (Some (fresh, l)) /\ NoDup l /\ forall y, In y l <-> In y keys.
 Proof.
-  intro items. unfold Keys, keys_ncalls_add, m_make. destruct (collect_loop_spec items [] (NoDup_nil T)) as [l [E [N M]]].
-  exists l. split; [exact E|]. split; [exact N|]. intro y. rewrite M. cbn [In]. tauto.
+  intros items fresh. unfold Keys. rewrite guarded_ok by reflexivity.
+  change (called keys_ncalls_make (m_make T fresh) None) with (Some (fresh, @nil T)). change keys_ncalls_add with 1.
+  destruct (collect_loop_spec (Pos.succ fresh) fresh items [] (NoDup_nil T)) as [l [E [N M]]]. rewrite E. cbn [bind]. rewrite ret1_ok by reflexivity.
+  exists l. split; [reflexivity|]. split; [exact N|]. intro y. rewrite M. cbn [In]. tauto.
 Qed.
 
-Theorem Values_spec : forall vals, exists l, Values T eqb vals = Ok (Some l) /\ NoDup l /\ forall y, In y l <-> In y vals.
+Theorem Values_spec : forall vals fresh, exists l, Values T eqb vals fresh = Ok (Some (fresh, l)) /\ NoDup l /\ forall y, In y l <-> In y vals.
 Proof.
-  intro items. unfold Values, values_ncalls_add, m_make. destruct (collect_loop_spec items [] (NoDup_nil T)) as [l [E [N M]]].
-  exists l. split; [exact E|]. split; [exact N|]. intro y. rewrite M. cbn [In]. tauto.
+  intros items fresh. unfold Values. rewrite guarded_ok by reflexivity.
+  change (called values_ncalls_make (m_make T fresh) None) with (Some (fresh, @nil T)). change values_ncalls_add with 1.
+  destruct (collect_loop_spec (Pos.succ fresh) fresh items [] (NoDup_nil T)) as [l [E [N M]]]. rewrite E. cbn [bind]. rewrite ret1_ok by reflexivity.
+  exists l. split; [reflexivity|]. split; [exact N|]. intro y. rewrite M. cbn [In]. tauto.
 Qed.
 
 End ProofsMut.
